@@ -16,7 +16,7 @@ func init() {
 	register(&PropDef{
 		ID:    "C36",
 		Pkgs:  []string{wrrbp},
-		Claim: "Decides the structural part only: an endpoint's weight is the stored value exactly when it has a report, the report is younger than the expiration period and (no blackout, or non-empty for at least the blackout period), and constant 0 on each of the other arms (expiry also restarts the blackout); a load report stores qps / (utilization + eps/qps x penalty) with utilization = application utilization falling back to CPU utilization, only when utilization and qps are non-zero, under the endpoint mutex; the scheduler is absent for no endpoints, plain round robin exactly on the arms 'one endpoint', 'at most one non-zero weight' and 'all scaled weights equal' and EDF otherwise; zero weights are replaced by round(scale x sum/(n - zeros)), others by round(scale x w) with scale = 65535/max; the EDF pick returns index seq mod n only when (weight x generation + index x 32767) mod 65535 >= 65535 - weight and otherwise advances; round robin returns seq mod n; the picker indexes its endpoints with the scheduler's index.",
+		Claim: "Decides the structural part only: an endpoint's weight is the stored value exactly when it has a report, the report is younger than the expiration period and (no blackout, or non-empty for at least the blackout period), and constant 0 on each of the other arms (expiry also restarts the blackout); a load report stores qps / (utilization + eps/qps x penalty) with utilization = application utilization falling back to CPU utilization, only when utilization and qps are non-zero, under the endpoint mutex; the scheduler is absent for no endpoints, plain round robin exactly on the arms 'one endpoint', 'at most one non-zero weight' and 'all scaled weights equal' and EDF otherwise; zero weights are replaced by round(scale x sum/(n - zeros)), others by round(scale x w) with scale = 65535/max; the EDF pick returns index seq mod n only when (weight x generation + index x 32767) mod 65535 >= 65535 - weight and otherwise advances; round robin returns seq mod n; the picker indexes its endpoints with the scheduler's index. Unless out-of-band reporting is configured, Pick installs a Done hook that hands a non-nil ORCA report to OnLoadReport of the endpoint whose picker served the call and chains to the child's Done; a failed child pick is returned as failure.",
 		NotDecided:  []string{"proportionality over a window of 65535 x n sequence numbers (arithmetic/number-theoretic property of the stride)", "termination within n sequence numbers (needs max scaled weight = 65535, a floating-point rounding fact)", "floating-point values of weights"},
 		Assumptions: []string{"math.Round, time.Time.Sub/Equal semantics"},
 		Technique:   "static analysis: decision-list extraction from dominating guards on go/ssa, expression-shape checks of the stored formulas, refusing-arm unreachability, must-lockset",
